@@ -213,16 +213,28 @@ func c28Observe(g *fw.Git, root string) map[string]string {
 	head, _ := os.ReadFile(filepath.Join(root, ".git", "HEAD"))
 	hs := strings.TrimSpace(string(head))
 	m["HEAD points-to"] = strings.TrimPrefix(hs, "ref: ")
-	r := g.Run("log", "-1", "--format=%T %P", "HEAD")
-	if r.OK() {
-		f := strings.Fields(r.S())
-		m["HEAD tree"] = f[0][:8]
-		m["HEAD parents"] = fmt.Sprint(len(f) - 1)
-		if len(f) > 1 {
-			m["HEAD parent"] = f[1][:8]
+	commit := hs
+	if strings.HasPrefix(hs, "ref: ") {
+		b, err := os.ReadFile(filepath.Join(root, ".git", strings.TrimPrefix(hs, "ref: ")))
+		commit = strings.TrimSpace(string(b))
+		if err != nil {
+			commit = ""
 		}
-	} else {
+	}
+	if commit == "" {
 		m["HEAD tree"] = "unborn"
+		return m
+	}
+	var f []string
+	if tree, parents, ok := hReadLooseCommit(filepath.Join(root, ".git"), commit); ok {
+		f = append([]string{tree}, parents...)
+	} else { // packed (a template commit): ask git
+		f = strings.Fields(g.MustRun("log", "-1", "--format=%T %P", commit).S())
+	}
+	m["HEAD tree"] = f[0][:8]
+	m["HEAD parents"] = fmt.Sprint(len(f) - 1)
+	if len(f) > 1 {
+		m["HEAD parent"] = f[1][:8]
 	}
 	return m
 }
@@ -348,7 +360,12 @@ func (e *c28Env) run(v []int) (sig, class string) {
 func runC28(c *fw.Ctx) {
 	t := hBuildTemplate(c, "c28tmpl", []string{"a", "d/b"}, "-12xl")
 	e := &c28Env{c: c, t: t}
-	nA, nB := len(c28StatesA), c.Pick(5, len(c28StatesB))
+	nA, nB := len(c28StatesA), len(c28StatesB)
+	if !c.Thorough() { // quick: the states that matter most, in front
+		c28StatesA = []string{"---", "111", "112", "11-", "--1", "11x", "11t", "121"}
+		c28StatesB = []string{"---+", "111+", "112+", "111", "11-"}
+		nA, nB = len(c28StatesA), len(c28StatesB)
+	}
 	nOps := len(c28OpNames) - 1
 	depth := c.Pick(2, 3)
 	c.Bound("states_a", c28StatesA)
@@ -356,7 +373,7 @@ func runC28(c *fw.Ctx) {
 	c.Bound("ops", c28OpNames[1:])
 	c.Bound("depth", depth)
 	c.Bound("extras", "always present: .gitignore (*.ign), z.ign, dx, u/v, empty dir e/; d/u and d/z.ign in the '+' states")
-	c.SetRule("initial states = (HEAD,index,worktree) triples for a (13) x d/b (quick 5, thorough 10; with/without untracked content inside d) built like C27 plus fixed untracked/ignored extras; all op sequences up to the depth over 12 operations, breadth first: a sequence is extended only if its prefix agreed; go-git runs the sequence on copy A, the equivalent git commands on copy B (AddGlob(*) = git add of the shell expansion; Remove = git rm -r -f; Clean = git clean -f [-d]; Commit with identical identity/date/message); compared after the last op: git ls-files -s of both, all remaining files, HEAD target, HEAD commit tree and parents, and for Commit tree == git write-tree of A's index; non-trivial = every executed sequence; distinct counts (per-op success pattern of both sides)")
+	c.SetRule("initial states = (HEAD,index,worktree) triples for a (quick 8, thorough 13) x d/b (quick 5, thorough 10; with/without untracked content inside d) built like C27 plus fixed untracked/ignored extras; all op sequences up to the depth over 12 operations (quick: depth 2 only from 4 of the 40 states), breadth first: a sequence is extended only if its prefix agreed; go-git runs the sequence on copy A, the equivalent git commands on copy B (AddGlob(*) = git add of the shell expansion; Remove = git rm -r -f; Clean = git clean -f [-d]; Commit with identical identity/date/message); compared after the last op: git ls-files -s of both, all remaining files, HEAD target, HEAD commit tree and parents, and for Commit tree == git write-tree of A's index; non-trivial = every executed sequence; distinct counts (per-op success pattern of both sides)")
 	c.Assume("git 2.39.5 commands listed in the rule are 'the equivalent git commands'; whether an op returned an error is not compared, only the resulting states")
 
 	if v := hDevVec(); v != nil {
@@ -380,6 +397,9 @@ func runC28(c *fw.Ctx) {
 		for _, p := range level {
 			if diverged[prefixKey(p)] {
 				continue
+			}
+			if !c.Thorough() && d > 1 && !c28QuickDeep[[2]int{p[0], p[1]}] {
+				continue // quick: longer sequences only from a few states
 			}
 			for op := 1; op <= nOps; op++ {
 				cases = append(cases, append(append([]int{}, p...), op))
@@ -416,6 +436,10 @@ func runC28(c *fw.Ctx) {
 	}
 	hReportClasses(c, &fails, c28Render)
 }
+
+// quick tier: states (indices into the quick lists) from which depth-2
+// sequences are explored: (---,---+) (112,112+) (11x,111) (121,11-)
+var c28QuickDeep = map[[2]int]bool{{0, 0}: true, {2, 2}: true, {5, 3}: true, {7, 4}: true}
 
 var c28Family = []string{"none", "Add", "Add", "Add", "AddAll", "AddGlob", "Remove", "Remove", "Move", "Move", "Clean", "Clean(Dir)", "Commit"}
 
